@@ -386,3 +386,30 @@ def load_known():
     if not os.path.exists(p):
         return []
     return json.load(open(p))
+
+
+def run_memcheck(component, ops_text, timeout=1800):
+    """valgrind memcheck over the plain (uninstrumented) harness build: reports of a branch, address or system call argument that depends on an
+    uninitialised value inside the library mean that the outcome of the history depends on something other than the history.
+    Returns the list of distinct reports (first stack frames in /repo), [] when clean, None when valgrind is not usable."""
+    exe = build_harness("plain")
+    if shutil.which("valgrind") is None:
+        return None
+    try:
+        p = subprocess.run(["valgrind", "-q", "--error-exitcode=0", "--num-callers=12", exe, component], input=ops_text, stdout=subprocess.PIPE, stderr=subprocess.PIPE,
+                           text=True, errors="replace", timeout=timeout)
+    except subprocess.TimeoutExpired:
+        return None
+    reps = []
+    for blk in re.split(r"\n==\d+== \n", p.stderr):
+        if "uninitialised" not in blk:
+            continue
+        head = re.search(r"==\d+== (.*uninitialised.*)", blk)
+        frames = re.findall(r"(?:at|by) 0x[0-9A-F]+: (.*)", blk)
+        # first frame that is neither libc / libstdc++ / valgrind's own: in the library (the library computed with the value) or in the harness
+        # (an observation of the library's state printed an undefined field; the harness prints only fields the library defines)
+        own = [f for f in frames if "(in /usr/" not in f and not re.search(r"\((ostream|basic_string\.h|[a-z_]+\.tcc|stl_[a-z_]+\.h|char_traits\.h):\d+\)", f)]
+        key = (head.group(1) if head else "uninitialised") + " in " + (own[0] if own else frames[0] if frames else "?")
+        if key not in reps:
+            reps.append(key)
+    return reps
